@@ -393,6 +393,10 @@ def _decls():
     D['Tsa_inl'] = ('table+ref', A.table('a', [A.col('id'), A.col('b_id')], schema='s'),
                     [A.ref('<', [['s', 'a', 'id']], [['public', 'b', 'id']], inline=True),
                      A.ref('-', [['s', 'a', 'b_id']], [['public', 'a', 'id']], inline=True)])
+    # a table whose bare name is the alias of Tb: the inline reference it declares must start at *its* column (the only
+    # unambiguous fact about such a document; nothing else addresses public.bb by name)
+    D['Tbb_inl'] = ('table+ref', A.table('bb', [A.col('id'), A.col('k')]),
+                    [A.ref('>', [['public', 'bb', 'id']], [['public', 'a', 'id']], inline=True)])
     D['Tc_enum'] = ('table', A.table('c', [A.col('k', ['typename', 'e']), A.col('l', ['typename', 's.e']), A.col('m', ['typename', 'public.e']),
                                            A.col('n', ['typename', 'E']), A.col('o', ['typename', 'S.e']), A.col('q', ['typename', 'x.e'])]))
     D['E'] = ('enum', A.enum('e', ['x', A.item('y', note='yn')]))
